@@ -616,6 +616,12 @@ def run_impl(binary, lines, timeout=600):
         guard += 1
         rc, o, err = vf.run_lines(binary, "".join(l + "\n" for l in rest), timeout=timeout)
         o = [l for l in o if not l.startswith("#")]
+        if rc == 124 and err == "[timeout]":
+            # our own tooling ran out of time (machine load): the unanswered cases are inconclusive, not failures of the property
+            n = min(len(o), len(rest))
+            if n and n < len(rest):
+                n -= 1                       # the last line may be cut
+            return out + o[:n] + ["TIMEOUT"] * (len(rest) - n)
         if rc == 0 and len(o) == len(rest):
             out += o
             rest = []
@@ -738,7 +744,10 @@ def main(tier, replay=None):
         "harness/c04_init.C, checks/C04.py (case generator, python big-integer oracle)", "g++ 12 / x86-64 (-O2 -march=native, FMA contraction as compiled) for the implementation side",
     ]
     chk.assumptions = ["model is hand-written after the init/convert bodies; tie = correspondence on generated cases for every (ring, source type) pair",
-                       "bodies repaired by frag/C04.fix-1..4 are modelled in repaired form; the old behaviour is a known finding until the repair is in /repo"]
+                       "bodies repaired by frag/C04.fix-1..12 (all in /repo) are modelled in repaired form; frag/C04.fix-13..15 are proposed: the model describes "
+                       "the unrepaired bodies on those defect domains and is not compared there once the implementation agrees with the oracle",
+                       "ModularExtended: the harness is compiled with -march=native (FP_FAST_FMA variant of reduce); the SSE/Dekker variant computes the same "
+                       "exact remainder and shares the correction tail"]
     # 1. proofs
     if os.path.exists(os.path.join(vf.coq_dir(AREA), "Properties.v")):
         res = vf.coq_check_props(AREA, timeout=900)
@@ -777,7 +786,10 @@ def main(tier, replay=None):
         try:
             cards[r] = (int(t[0]), int(t[1]))
         except (ValueError, IndexError):
-            chk.broke("cannot read min/maxCardinality of %s: %r" % (r, l))
+            if l == "TIMEOUT":
+                chk.cov.setdefault("inconclusive_cardinality_reads", []).append(r)
+            else:
+                chk.broke("cannot read min/maxCardinality of %s: %r" % (r, l))
     chk.cov["cardinalities_from_implementation"] = {r: list(cards[r]) for r in cards}
     # 3. cases
     if replay:
@@ -798,7 +810,9 @@ def main(tier, replay=None):
         mo = None
         if drv:
             rc, mo, merr = vf.run_lines(drv, "".join(model_line(c) + "\n" for c in cs), timeout=1500)
-            if rc != 0 or len(mo) != len(cs):
+            if rc == 124 and merr == "[timeout]":
+                mo = "TIMEOUT"
+            elif rc != 0 or len(mo) != len(cs):
                 mo = "model driver failed on ring %s (rc=%s, %d/%d lines) %s" % (ring, rc, len(mo), len(cs), merr[-500:])
         return ring, (io, mo)
     with ThreadPoolExecutor(max_workers=max(2, vf.NCPU // 2)) as ex:
@@ -809,10 +823,14 @@ def main(tier, replay=None):
     ncorr = 0
     nub = 0
     nrepaired = 0
+    inconclusive = {}      # streams cut by a time-out of our own tooling: recorded, never a violation
     for ring in sorted(by_ring):
         kind, elt = RINGS[ring]
         io, mo = results[ring]
-        if isinstance(mo, str):
+        if mo == "TIMEOUT":
+            inconclusive["model stream of " + ring] = len(by_ring[ring])
+            mo = None
+        elif isinstance(mo, str):
             chk.broke(mo)
             mo = None
         for i, (c, line) in enumerate(zip(by_ring[ring], io)):
@@ -823,6 +841,9 @@ def main(tier, replay=None):
             site = code_site(ring, src) if op != "const" else "%s::constants" % RING_CXX[ring]
             inst = "%s::init(%s)" % (RING_CXX[ring], SRC_CXX.get(src, src))
             if line == "NOFORM":
+                continue
+            if line == "TIMEOUT":
+                inconclusive["implementation stream of " + ring] = inconclusive.get("implementation stream of " + ring, 0) + 1
                 continue
             if how:
                 hn = how.split(":")[0]
@@ -976,9 +997,11 @@ def main(tier, replay=None):
         print("cases", len(cases), "failing", len(chk.failing), "tie-compared", ncorr, "model-UB", nub)
         return 0
     chk.cov["rule"] = ("every ring family x every source type x boundary moduli (2,3,max,max-1,2^k+-1,random) x boundary values (0,+-1,m-1,m,m+1,"
-                       "multiples of m, type limits, 2^24/2^53/2^63/2^64 +-1, random, wide); non-trivial = x<0 or |x|>=m; distinct = (op,ring,src,p,k,x)")
+                       "multiples of m, type limits, 2^24/2^53/2^63/2^64 +-1, random, wide) + the deterministic stream of multiples (see multiples_of_modulus_stream) "
+                       "+ the ModularExtended correction-tail classes; non-trivial = x<0 or |x|>=m; distinct = (op,ring,src,p,k,x)")
     chk.cov["traces_validated_against_impl"] = ncorr
     chk.cov["model_leaves_defined_behaviour"] = nub
+    chk.cov["inconclusive_streams_timeout_of_own_tooling"] = inconclusive
     chk.cov["inputs_in_a_listed_defect_domain_on_which_the_implementation_is_correct"] = nrepaired
     chk.cov["distribution_by_ring_and_source"] = {k: v for k, v in dist.items() if "/" in k and not k.startswith(("rt-through/", "how/"))}
     # every public call form of the operations the property names, with the number of cases that drove it
